@@ -186,7 +186,7 @@ def _run_all(targets, tier, seed, serial, nproc, reports):
     return reports, crashes
 
 
-def prove_zlemma(name, lprops, build, note, tier):
+def prove_zlemma(name, lprops, build, note, tier, prefer=None):
     import z3
     t0 = time.time()
     ob = prove.Obligation('lemma', 'lemma', name, ['lemma'], lprops, note or name)
@@ -196,6 +196,13 @@ def prove_zlemma(name, lprops, build, note, tier):
     for a in assumes:
         s.add(a)
     s.add(z3.Not(goal))
+    if prefer == 'cvc5':
+        # string / sequence lemmas: cvc5 decides in about a second what z3 leaves unknown (measured, DESIGN 2.3)
+        res = prove.run_cvc5(s.to_smt2(), 30000 if tier == 'quick' else 120000)
+        if res == 'unsat':
+            ob.result, ob.backend = 'proved', 'cvc5'
+            ob.ms = (time.time() - t0) * 1000
+            return ob
     r = s.check()
     if r == z3.unsat:
         ob.result, ob.backend = 'proved', 'z3'
@@ -258,6 +265,15 @@ def cmd_prove(a):
     tier = a.tier or os.environ.get('VERIF_TIER', 'quick')
     seed = int(os.environ.get('VERIF_SEED', '0'))
     load_contracts()
+    crosscheck_note = None
+    if tier == 'thorough':
+        # engine soundness guard (DESIGN 2.8): interpreter vs CPython on concrete inputs; a mismatch is a checker error
+        cc = subprocess.run([sys.executable, os.path.join(ROOT, 'tools', 'crosscheck.py'), '--cases', '300', '--seed', str(seed)],
+                            capture_output=True, text=True, timeout=3600)
+        crosscheck_note = (cc.stdout.strip().splitlines() or ['?'])[0]
+        if cc.returncode != 0:
+            print('CHECKER-ERROR property=%s engine cross-check against CPython failed:\n%s' % (prop, cc.stdout[-3000:] + cc.stderr[-1000:]))
+            return 3
     targets = [qn for qn, C in spec.REGISTRY.items() if contract_touches(C, prop)]
     if a.function:
         targets = [t for t in targets if a.function in t]
@@ -315,9 +331,9 @@ def cmd_prove(a):
             elif ob.result == 'unknown':
                 unknown.append(ob)
 
-    for name, (lprops, build, note) in sorted(spec.ZLEMMAS.items()):
+    for name, (lprops, build, note, prefer) in sorted(spec.ZLEMMAS.items()):
         if prop in lprops:
-            ob = prove_zlemma(name, lprops, build, note, tier)
+            ob = prove_zlemma(name, lprops, build, note, tier, prefer)
             obligations.append(ob)
             by_backend[ob.backend] = by_backend.get(ob.backend, 0) + 1
             solver_ms_total += ob.ms
@@ -394,6 +410,7 @@ def cmd_prove(a):
                              'computed_in_this_run': sorted(CACHE_STATS['misses'])},
         },
         'assumptions': ASSUMED_SEMANTICS + ['dependency model: ' + m for m in sorted(models)],
+        'engine_crosscheck': crosscheck_note or 'not run in the quick tier (python3-vt tools/crosscheck.py; run by every thorough check)',
         'wall_s': round(time.time() - t0, 2),
         'violations': len({ob.oid for ob in refuted}),
     }
@@ -547,6 +564,8 @@ def main():
     p.add_argument('--serial', action='store_true')
     dt = sub.add_parser('determinism')
     dt.add_argument('--tier', default=None)
+    cc = sub.add_parser('crosscheck')
+    cc.add_argument('--cases', default='300')
     r = sub.add_parser('replay')
     r.add_argument('path')
     a = ap.parse_args()
@@ -558,6 +577,8 @@ def main():
         except Exception:
             print('CHECKER-ERROR property=%s\n%s' % (a.property, traceback.format_exc()))
             sys.exit(3)
+    elif a.cmd == 'crosscheck':
+        sys.exit(subprocess.run([sys.executable, os.path.join(ROOT, 'tools', 'crosscheck.py'), '--cases', a.cases]).returncode)
     elif a.cmd == 'determinism':
         sys.exit(cmd_determinism(a))
     elif a.cmd == 'replay':
